@@ -113,7 +113,13 @@ func gen38(t *rapid.T, env *ev.Env) Case {
 		}
 		seedPuts = append(seedPuts, p)
 	}
-	ops = append(append(append([]prog.Op(nil), ops[:2]...), seedPuts...), ops[2:]...)
+	// in half of the cases bucket 0 is versioning-enabled from the start (version ids in results, delete
+	// markers, named versions and ListObjectVersions are a large part of the translation under test)
+	head := append([]prog.Op(nil), ops[:2]...)
+	if rapid.Bool().Draw(t, "versioned") {
+		head = append(head, prog.Op{Kind: prog.OpSetVersioning, B: 0, Status: "Enabled"})
+	}
+	ops = append(append(head, seedPuts...), ops[2:]...)
 	for i := range ops {
 		op := ops[i]
 		fixExpires(&op)
